@@ -187,7 +187,27 @@ fn check_c09(l: &Ledger, e: &[(String, String)], _s: &PropSpec) -> Vec<Violation
     if let Some(kv) = sweep_entry(e) {
         return crate::oracle_tap::replay_sweep_c09(&kv);
     }
-    crate::oracle_tap::check_c09_ledger(l)
+    let mut out = crate::oracle_tap::check_c09_ledger(l);
+    // "... never changes what is decoded nor makes validation fail", seen at the client: a message that the
+    // client must accept by the FINGERPRINT / credential rules (C10, C07, C08 oracles) and that carries attributes
+    // the ordering rule does not admit must not be rejected -- what follows the admitted part is to be ignored
+    for v in oracle_cred::check_c10_client(l).into_iter().chain(oracle_cred::check_c07(l)).chain(oracle_cred::check_c08(l)) {
+        if !(v.key.contains("not-delivered") || v.key.contains("rejected") || v.key.contains("dropped")) {
+            continue;
+        }
+        let Some(st) = l.steps.get(v.step) else { continue };
+        if st.idx != v.step {
+            continue;
+        }
+        if let Call::Recv { bytes, .. } = &st.call {
+            if let Ok(p) = crate::wire::parse(bytes) {
+                if crate::wire::admitted(&p.types()).iter().any(|a| !*a) {
+                    out.push(Violation { prop: "C09", key: format!("C09/inadmissible-attributes-made-the-client-reject:{}", v.key), step: v.step, detail: v.detail });
+                }
+            }
+        }
+    }
+    out
 }
 
 fn sig_c09(l: &Ledger) -> Vec<u64> {
@@ -292,7 +312,16 @@ fn c05() -> PropSpec {
 // ---- C06 -------------------------------------------------------------------------------------
 
 fn check_c06(l: &Ledger, _e: &[(String, String)], _s: &PropSpec) -> Vec<Violation> {
-    oracle_tx::check_c06(l)
+    let mut out = oracle_tx::check_c06(l);
+    // "with the defaults this is 0, 500, 1500 ...": as long as no response has ever produced a round-trip sample
+    // the RTO a request is scheduled with is the configured one, whatever happened to earlier requests (time-outs,
+    // rejected responses); the estimator reference of C15 decides "no sample so far"
+    for v in crate::oracle_rtt::check_c15(l).0 {
+        if v.key.ends_with("(initial)") {
+            out.push(Violation { prop: "C06", key: v.key.replace("C15/", "C06/schedule-not-based-on-the-configured-rto:"), step: v.step, detail: v.detail });
+        }
+    }
+    out
 }
 
 /// distinct (Rc, Rm, lateness pattern class per firing, concurrency); trivial = single request, exact timers, defaults
@@ -601,6 +630,7 @@ fn c07() -> PropSpec {
     p.mech_w = [0, 3, 1, 1, 0];
     p.max_tx = &[1, 2, 4, 10, 10, 16];
     p.p_burst = 200;
+    p.p_storm = 60;
     p.n_app = (1, 14);
     p.p_srv_integ = 350;
     p.p_srv_code = 150;
@@ -760,7 +790,18 @@ fn c10() -> PropSpec {
 // ---- C13 -------------------------------------------------------------------------------------
 
 fn check_c13(l: &Ledger, _e: &[(String, String)], _s: &PropSpec) -> Vec<Violation> {
-    oracle_cred::check_c13(l)
+    let mut out = oracle_cred::check_c13(l);
+    // "then the credential attributes the mechanism requires": which ones a mechanism requires in the
+    // credential state reached along the history is what the C07 / C08 oracles track (short-term: USERNAME and
+    // both integrity attributes until an algorithm is agreed, then exactly that one; long-term: nothing before
+    // the first challenge, afterwards what a server following RFC 8489 9.2.4 insists on) -- the rules about
+    // *emitted* packets are reported here under C13 keys
+    for v in oracle_cred::check_c07(l).into_iter().chain(oracle_cred::check_c08(l)) {
+        if v.key.starts_with("C07/emitted-") || v.key.starts_with("C08/first-request-carries-credential-attribute") || v.key.starts_with("C08/strict-server-rejects(") {
+            out.push(Violation { prop: "C13", key: format!("C13/required-credential-attributes:{}", v.key), step: v.step, detail: v.detail });
+        }
+    }
+    out
 }
 
 fn sig_c13(l: &Ledger) -> Vec<u64> {
